@@ -13,6 +13,10 @@
   every `nsamples` callback, every restart history, every length.
 -/
 import DfolsVerif.Proofs.CountAcc
+import DfolsVerif.Proofs.EvalLoop
+import DfolsVerif.Gen.EvalLoopFns
+import DfolsVerif.Proofs.EvalLoopAcc
+import DfolsVerif.Proofs.RestartGuards
 
 namespace Dfols
 namespace C02
@@ -106,6 +110,85 @@ example : (accept 4 exTrace).toOption.map (fun s => (s.nf, s.nx, s.groups)) = so
 /-- an over-budget evaluation is rejected -/
 example : (accept 1 [.rst 0 0 0 false 1 3, .ns 2, .obj 1 1 1 7 (.num 5) 1, .obj 2 2 1 7 (.num 6) 1]).toOption.isNone = true := by
   decide
+
+/-! ### the two sampling loops, translated from the source (layer G) and their exact behaviour (L0)
+
+  `CountAcc` above constrains where evaluations may appear in a trace.  The two loops that actually spend
+  the budget — `Controller.evaluate_objective` and the block at x0 in `solve_main` — are in addition
+  translated statement by statement from /repo's AST on every run (`Gen/EvalLoopFns.lean`), proved equal to
+  the kernels `Kernels/EvalLoop.lean` by `rfl`, and the kernels' behaviour is proved for all budgets,
+  counters and sample counts. -/
+
+open EvalLoop in
+/-- the loop bodies and the states they start from, as generated from the current source, are the kernels -/
+theorem gen_evalLoops (maxfun nf nx : Nat) (s : EvalLoop.LoopSt) :
+    Gen.evalObjBody maxfun s = evalObjBody maxfun s ∧ Gen.x0Body maxfun s = x0Body maxfun s ∧
+    (∀ n, forRange n (Gen.evalObjBody maxfun) (Gen.evalObjInit nf nx) = evaluateObjective maxfun nf nx n) ∧
+    (∀ n, forRange (n - 1) (Gen.x0Body maxfun) (Gen.x0Init nf nx) = evaluateX0 maxfun nf nx n) :=
+  ⟨rfl, rfl, fun _ => rfl, fun _ => rfl⟩
+
+/-- every evaluation call of a block is made at the block's one point expression (`remove_scaling(x, …)` with
+    the loop-invariant `x`): calls that share a point number receive the identical x -/
+theorem gen_sample_points : Gen.samplePointArgs =
+    [("evalObj", ["remove_scaling(x, self.scaling_changes)"]),
+     ("x0", ["remove_scaling(x0, scaling_changes)", "remove_scaling(x0, scaling_changes)"])] := by decide +kernel
+
+open EvalLoop in
+/-- **`evaluate_objective`, every budget** (on the translated loop): starting from counters `(nf, nx)` with
+    `nf ≤ maxfun` and asked for `n` samples it makes `k = min n (maxfun - nf)` calls, numbered `nf+1 … nf+k`
+    without gaps, all carrying the ONE new point number `nx+1`; `num_samples_run = k`; `nf` never passes
+    `maxfun`; the max-evaluations warning is created exactly when fewer than `n` samples could be taken. -/
+theorem C02_evaluate_objective (maxfun nf nx n : Nat) (hb : nf ≤ maxfun) :
+    let k := min n (maxfun - nf)
+    let t := forRange n (Gen.evalObjBody maxfun) (Gen.evalObjInit nf nx)
+    t.nf = nf + k ∧ t.nf ≤ maxfun ∧ t.runs = k ∧ t.nx = (if k = 0 then nx else nx + 1) ∧
+    t.calls = (List.range k).map (fun j => (nf + j + 1, nx + 1)) ∧
+    (t.exit = some 1 ↔ k < n) ∧ (t.exit = none ↔ k = n) := by
+  have h := evaluateObjective_spec maxfun nf nx n
+  simp only at h
+  obtain ⟨h1, h2, h3, h4, h5, h6, h7⟩ := h
+  exact ⟨h1, h7 hb, h3, h2, h4, h5, h6⟩
+
+open EvalLoop in
+/-- **the block at x0, every budget** (on the translated loop): entered with `nf_so_far < maxfun` and `n ≥ 1`
+    samples requested it makes `1 + min (n-1) (maxfun - nf_so_far - 1)` calls, numbered consecutively from
+    `nf_so_far + 1`, all at point number `nx_so_far + 1`, never passes `maxfun`, and creates the warning
+    exactly when samples are missing.  (Entered with `nf_so_far = maxfun` the first, unconditional call
+    would pass the budget: `solve`'s restart loop tests `nf < maxfun` before every run — acceptor rule `rst`.) -/
+theorem C02_x0_block (maxfun nf nx n : Nat) (hn : 1 ≤ n) (hb : nf + 1 ≤ maxfun) :
+    let k := min (n - 1) (maxfun - (nf + 1))
+    let t := forRange (n - 1) (Gen.x0Body maxfun) (Gen.x0Init nf nx)
+    t.nf = nf + 1 + k ∧ t.nf ≤ maxfun ∧ t.runs = 1 + k ∧ t.nx = nx + 1 ∧
+    t.calls = (List.range (k + 1)).map (fun j => (nf + j + 1, nx + 1)) ∧ (t.exit = some 1 ↔ 1 + k < n) := by
+  have h := evaluateX0_spec maxfun nf nx n hn
+  simp only at h
+  obtain ⟨h1, h2, h3, h4, h5, h6⟩ := h
+  exact ⟨h1, h6 hb, h3, h2, h4, h5⟩
+
+/-- **refinement L0 → L2**: the event block `evb, obj…, eve` that the TRANSLATED `evaluate_objective` loop produces
+    (its calls, its `num_samples_run`) is accepted by the counter acceptor from any idle state with the same
+    counters, and the acceptor ends idle with the loop's counters: the acceptor's rules contain the behaviour
+    of the code they mirror. -/
+theorem C02_loop_refines_acceptor (maxfun nf nx want x : Nat) (v : Val) (s : St)
+    (hm : s.maxfun = maxfun) (hp : s.phase = .idle) (hn : s.nf = nf) (hx : s.nx = nx) (hl : s.lastNs = want)
+    (hb : nf ≤ maxfun) (ex : Option Int) (cls : MsgCls) (vm thr : Val) (nan : Bool) :
+    let t := EvalLoop.forRange want (Gen.evalObjBody maxfun) (Gen.evalObjInit nf nx)
+    ∃ s', ([Ev.evb want x] ++ t.calls.map (EvalLoopAcc.objEv x v) ++ [Ev.eve t.runs ex cls vm thr nan]).foldlM step s = .ok s' ∧
+      s'.phase = .idle ∧ s'.nf = t.nf ∧ s'.nx = t.nx ∧ s'.maxfun = maxfun :=
+  EvalLoopAcc.evaluateObjective_accepted maxfun nf nx want x v s hm hp hn hx hl hb ex cls vm thr nan
+
+/-- **the hard-restart loop of `solve`, translated from the source**: another run is started only with `nf < maxfun`,
+    so the unconditional first evaluation of a restarted run (`C02_x0_block`'s hypothesis `nf + 1 ≤ maxfun`) stays
+    within the budget. -/
+theorem C02_hard_restart_guard (useRestarts useSoft able : Bool) (nf maxfun nruns last maxUnsucc : Int)
+    (h : Gen.hardRestartGuard useRestarts useSoft able nf maxfun nruns last maxUnsucc = true) :
+    nf + 1 ≤ maxfun ∧ useRestarts = true ∧ useSoft = false ∧ able = true := by
+  obtain ⟨h1, h2, h3, h4, _⟩ := RestartGuards.hardRestartGuard_sound useRestarts useSoft able nf maxfun nruns last maxUnsucc h
+  exact ⟨by omega, h2, h3, h4⟩
+
+/-- non-vacuity / worked example: 3 samples asked with one evaluation left -/
+example : (EvalLoop.forRange 3 (Gen.evalObjBody 10) (Gen.evalObjInit 9 4)) =
+    { nf := 10, nx := 5, incremented := true, runs := 1, exit := some 1, calls := [(10, 5)] } := by decide
 
 end C02
 end Dfols
